@@ -85,6 +85,20 @@ CHECKS = {
         "mpmath reference for the quadrature; exact model arithmetic.",
         "DESIGN.md section 4, C05",
     ),
+    "C06": (
+        "exploration",
+        "seeds x configuration cells of real runs against closed-form "
+        "evidences and posteriors; fixed thresholds from Student-t / "
+        "chi-square / binomial tail bounds (false alarm < 1e-9)",
+        RUNS + "Cells = (analytic model, algorithmic configuration) of both "
+        "samplers, S Hypothesis-drawn seeds per cell; mean error of log Z vs "
+        "zero, spread of errors vs reported uncertainty, pooled posterior "
+        "moments vs analytic values, insertion-index p-values. Quick 10 "
+        "cells x 20 seeds (rotating with the seed), thorough 24 x 100.",
+        "Normal-theory tail bounds; resolution stated in the evidence "
+        "(defects moving log Z by < ~0.4 quick / ~0.12 thorough pass).",
+        "DESIGN.md section 4, C06",
+    ),
     "C07": (
         "exploration",
         "Hypothesis property tests: round trip, Jacobian consistency, "
@@ -153,6 +167,22 @@ CHECKS = {
         "local Lipschitz constant (evidence assumptions).",
         "DESIGN.md section 4, C08",
     ),
+    "C09": (
+        "exploration",
+        "passive pool monitor + likelihood call log on generated real runs; "
+        "Hypothesis-generated train/populate histories on directly driven "
+        "proposals; two-sample tests against brute-force prior-in-contour "
+        "sampling",
+        RUNS + "Every pool population and draw of every proposal class is "
+        "checked (bounds, logP/logL == model, size, index permutation, "
+        "latent contour), every likelihood argument must lie in the prior "
+        "support; direct-drive histories re-train and re-populate with "
+        "changing contours; the distributional part compares 12000-point "
+        "pools with prior-in-contour references (chi-square / KS, p < 1e-9).",
+        "Contour check only for deterministic reparameterisations; "
+        "statistical resolution fixed at 12000 vs 12000 points.",
+        "DESIGN.md section 4, C09",
+    ),
     "C10": (
         "exploration",
         "bounded exhaustive grid + Hypothesis + real fork pools against a "
@@ -215,6 +245,22 @@ CHECKS = {
         "quick / 940k thorough.",
         "Reference registry written from the documentation.",
         "DESIGN.md section 4, C18",
+    ),
+    "C19": (
+        "exploration",
+        "Hypothesis round-trip tests of the JSON / HDF5 encoders + read-back "
+        "of real result files against the in-memory results",
+        "Generated dictionaries over every value type real results contain "
+        "(type alphabet collected from real runs and enforced in the "
+        "generator health check) written with save_to_json / "
+        "save_dict_to_hdf5 and FlowSampler.save_results / save_kwargs, read "
+        "back with json / h5py and compared value by value with the "
+        "documented decodings only; real runs of both samplers x "
+        "{hdf5,h5,json} compared field by field. ~3600 cases + 9 runs quick, "
+        "33000 + 60 thorough.",
+        "Documented decodings only (\"__none__\", bytes, rows for JSON "
+        "structured arrays, longdouble rounding in JSON).",
+        "DESIGN.md section 4, C19",
     ),
     "C20": (
         "exploration",
